@@ -13,9 +13,11 @@ THEOREMS = [
     (P, 'EAO.C19.restricted_points', 'membership in the restricted grid = in the reference and in the window'),
     (P, 'EAO.C19.restrict_restrict', 'restricting twice = restricting to the intersection'),
     (P, 'EAO.C19.restrict_idempotent', 'restriction is idempotent'),
-    (P, 'EAO.C19.coarse_partition', 'when coarsening succeeds: one coarse step per pair of cuts, minor lists non-empty, consecutive, disjoint, covering [first cut, last cut), sum of dt preserved'),
-    (P, 'EAO.C19.coarse_partition_whole', 'corollary: window a whole number of coarse steps => the fine steps of the window are partitioned without loss'),
-    (P, 'EAO.C19.coarse_empty_raises', 'a coarse interval without fine step is rejected'),
+    (P, 'EAO.C19.coarse_partition', 'when coarsening succeeds: one coarse step per pair of cuts THAT HOLDS A FINE STEP, in order (pairs without any - window beyond the reference grid - are skipped and hold nothing); minor lists = the fine steps of the interval, non-empty, consecutive, disjoint, covering [first cut, last cut); sum of dt preserved (reference with as many dt as indices)'),
+    (P, 'EAO.C19.coarse_partition_no_empty', 'the statement as it read before empty intervals were skipped, under the hypothesis it used to get from the success of the construction: no pair of cuts without fine step => one coarse step per pair of cuts, step j = the fine steps of [cuts_j, cuts_j+1)'),
+    (P, 'EAO.C19.coarse_partition_whole', 'corollary: window a whole number of coarse steps => the fine steps of the window are partitioned without loss (wherever the window lies relative to the reference grid)'),
+    (P, 'EAO.C19.coarse_partition_clipped', 'corollary: window ending after the last cut with no reference point in between (it reaches beyond the horizon) => the fine steps of the window clipped to the reference grid are partitioned without loss, whole number of coarse steps or not'),
+    (P, 'EAO.C19.coarse_empty_skipped', 'a pair of cuts without fine step is skipped: the coarse grid is that of the remaining cuts (the construction used to fail there)'),
     (P, 'EAO.C19.coarse_first_minor', 'a coarse step carries index, point and Dt of its first minor step (reference index = position)'),
     (P, 'EAO.C19.values_error_iff', 'values_to_grid raises the overlap error iff some grid point lies in two intervals'),
     (P, 'EAO.C19.values_error_kind', 'overlap is the only error'),
@@ -25,11 +27,12 @@ THEOREMS = [
     (P, 'EAO.C19.prep_without_end', 'prep_date_dict on data without ends yields nothing'),
     (P, 'EAO.C19.gridded_passthrough', 'already gridded arrays pass through unchanged'),
     (P, 'EAO.C19.coarse_remainder_witness', 'machine-checked witness of known finding F-19b (coarse window not a whole number of coarse steps covers 4 of 5 steps)'),
+    (P, 'EAO.C19.coarse_beyond_grid_witness', 'the former witness of the crash is accepted: window 3 h beyond a 5 h grid, 2 h steps: steps [0,1],[2,3],[4], the empty pair skipped, all 5 h covered; window starting 4 h before the grid: the two leading pairs skipped'),
     (P, 'EAO.C19.coarse_on_restricted_witness', 'machine-checked witness of known finding F-19d'),
 ]
-PARTIAL = ['coarse_partition covers [first cut, last cut), not the window: when the window is not a whole number of coarse steps the implementation drops fine steps (known finding F-19b)']
+PARTIAL = ['coarse_partition covers [first cut, last cut), not the window: when the window is not a whole number of coarse steps AND ends inside the reference grid the implementation drops the fine steps after the last cut (known finding F-19b); a window that reaches beyond the reference grid loses nothing (coarse_partition_clipped)']
 COMPONENTS = ['grid (tick + supplied calendar points) vs Timegrid.__init__', 'restrict vs set_restricted_grid', 'coarsen vs the coarse branch', 'values_to_grid / implicit ends / prep_date_dict', 'prices pass-through']
-RULE = ('generated grids (5 zones, units h/d/min/s, tick frequencies + calendar d/MS/W, DST dates), restriction windows from a placement table, coarse multiples and non-multiples, interval lists in all container forms incl. malformed; '
+RULE = ('generated grids (5 zones, units h/d/min/s, tick frequencies + calendar d/MS/W, DST dates), restriction windows from a placement table, coarse multiples and non-multiples, coarse windows reaching beyond the reference grid (before the start, after the end, both; by whole coarse steps, by part of one, entirely outside), interval lists in all container forms incl. malformed; '
         'thorough: all windows on DST-night grids up to 48 steps; non-trivial = grid with more than one step built without error; distinct by case hash')
 ASSUMPTIONS = ['exact comparison when every dt is dyadic, 1e-9 relative otherwise']
 MODELLED = ['pandas localisation of naive dates and calendar arithmetic (date_range for calendar frequencies): inputs of the model, produced with the same pandas calls the code makes; hypothesis CalendarOK evaluated on what pandas returned',
